@@ -115,7 +115,6 @@ Section Outcomes.
                 | DictOf kk =>
                   match raw with
                   | JObj members => do l' <- mapM (dict_entry (pk f) kk (f_kind fl)) members; Ok (MDict l')
-                  | JStr [] | JArr [] => Ok (MDict [])
                   | _ => reject
                   end
                 end = Raise e -> vr e).
@@ -123,9 +122,7 @@ Section Outcomes.
       - eapply IH. exact H.
       - eapply list_items_outcomes; eassumption.
       - destruct raw as [|b|z|m x|s|l|ms]; try (injection H as <-; apply vr_reject).
-        + destruct s; [discriminate H|injection H as <-; apply vr_reject].
-        + destruct l; [discriminate H|injection H as <-; apply vr_reject].
-        + destruct (mapM (dict_entry (pk f) kk (f_kind fl)) ms) as [ys|e'] eqn:Em; cbn [bind] in H; [discriminate H|].
+        destruct (mapM (dict_entry (pk f) kk (f_kind fl)) ms) as [ys|e'] eqn:Em; cbn [bind] in H; [discriminate H|].
           injection H as <-. apply mapM_raise in Em. destruct Em as [kv [_ Hx]].
           unfold dict_entry in Hx.
           destruct (pk f kk (JStr (fst kv))) as [y1|e1] eqn:E1; cbn [bind] in Hx.
